@@ -145,6 +145,8 @@ def run(prop, tier):
     open(os.path.join(VERIF, ".build", "logs", "%s_%s.log" % (prop, tier)), "w").write(out)
 
     violations, inconclusive, samples = [], [], []
+    confirmed_labels, not_replayed, n_playbacks = set(), [], 0
+    MAX_PLAYBACKS = int(os.environ.get("VERIF_MAX_PLAYBACKS", "3"))
     discharged = 0
     solver_s = 0.0
     total_checks = 0
@@ -174,7 +176,13 @@ def run(prop, tier):
             if any("unwinding assertion" in l for l in labels):
                 inconclusive.append("%s: unwinding bound too small (%s)" % (h, labels))
             real = [l for l in labels if "unwinding assertion" not in l]
-            if real:
+            if real and all(l in confirmed_labels for l in real):
+                entry["note"] = "same failing check already confirmed by native replay on another harness"
+            elif real and n_playbacks >= MAX_PLAYBACKS:
+                entry["note"] = "failing; not replayed (playback budget of %d harnesses per run used up)" % MAX_PLAYBACKS
+                not_replayed.append(h)
+            elif real:
+                n_playbacks += 1
                 # second pass: get concrete values, replay natively
                 _, _, out2, _ = K.run_kani([h], jobs=1, harness_timeout=max(per_harness, 1800), unwind=cfg["unwind"], extra_cbmc=extra, playback=True, features=features)
                 tests = [t for t in K.parse_playback(out2) if t[0] != "cover"]
@@ -187,6 +195,8 @@ def run(prop, tier):
                     rrc, failed, notes = K.native_replay(replay_bin, h, vals)
                     if rrc == 1 and failed:
                         confirmed = True
+                        confirmed_labels.add(label)
+                        confirmed_labels.update(failed)
                         for fl in sorted(set(failed)):
                             path = save_replay(prop, "%s_%s" % (h.split("::")[-1], re.sub(r"\W+", "_", fl)[:60]),
                                                {"property": prop, "engine": "kani", "harness": h, "values": vals, "failed_check": fl, "notes": notes, "kani_label": label})
@@ -198,6 +208,8 @@ def run(prop, tier):
                 inconclusive.append("%s: verification failed without a failed check (%s)" % (h, r))
         samples.append(entry)
 
+    if not_replayed and not violations:
+        inconclusive.append("failing harnesses were not replayed: %s" % not_replayed)
     # de-duplicate violations by key (same failing check at several widths is one finding)
     uniq = {}
     for v in violations:
